@@ -182,7 +182,9 @@ func (cfg *config) useProxy(addr string) bool {
 // useProxyHostPort reports whether requests to host and port should
 // use a proxy, according to the NO_PROXY or no_proxy environment variable.
 func (cfg *config) useProxyHostPort(host, port string) bool {
-	if host == "localhost" {
+	// Host names are case-insensitive.
+	addr := strings.ToLower(strings.TrimSpace(host))
+	if addr == "localhost" {
 		return false
 	}
 	nip, err := netip.ParseAddr(host)
@@ -193,8 +195,6 @@ func (cfg *config) useProxyHostPort(host, port string) bool {
 			return false
 		}
 	}
-
-	addr := strings.ToLower(strings.TrimSpace(host))
 
 	if ip != nil {
 		for _, m := range cfg.ipMatchers {
